@@ -780,7 +780,7 @@ def knownDirectWriters : List (String × String × String) :=
   [("src/cdb.py", "ReaderWriter._openFiles", "w"),
    ("src/dbi.py", "DirMapping._setMax", "w"), ("src/dbi.py", "DirMapping.set", "w"),
    ("src/dbi.py", "DirMapping.add", "w"), ("src/dbi.py", "FlatfileMapping._incrementCurrentId", "a"),
-   ("src/dbi.py", "FlatfileMapping.add", "r+"), ("src/dbi.py", "FlatfileMapping.set", "r+"),
+   ("src/dbi.py", "FlatfileMapping.add", "r+"),
    ("src/dbi.py", "FlatfileMapping.remove", "r+"),
    ("src/httpserver.py", "set_default_templates", "a"),
    ("src/utils/file.py", "open_mkdir", "?"), ("src/utils/file.py", "touch", "w"),
